@@ -156,9 +156,60 @@ func genHandshake(r *rand.Rand) [][2]string {
 		lines = append(lines, [2]string{"Sec-WebSocket-Protocol", "foo"}, [2]string{"Sec-WebSocket-Protocol", "grpc-websockets"})
 	}
 	if r.Intn(4) == 0 {
-		lines = append(lines, [2]string{"Content-Type", common.Pick(r, ctVals)})
+		lines = append(lines, [2]string{"Content-Type", genContentType(r)})
 	}
 	return lines
+}
+
+// ---- Content-Type families.  The property text: "gRPC-Web iff its MEDIA TYPE is application/grpc-web with any
+// suffix or parameters" — the media type is what precedes the first ';' (trimmed, ASCII case-insensitive); whether the
+// parameters after it are well-formed must not matter.
+
+var grpcWebTypes = []string{"application/grpc-web", "Application/GRPC-Web", "APPLICATION/GRPC-WEB", "aPPLICATION/gRPC-wEB", "application/Grpc-Web"}
+
+// suffixes: registered ones, odd ones, non-token characters, non-ASCII bytes
+var grpcWebSuffixes = []string{"", "", "+proto", "+json", "+PROTO", "+thrift", "+", "++", "+proto+proto", "+pro to", "+proto@home", "+proto/x", "+\"proto\"", "+pr\xc3\xbc", "+\xff",
+	"+proto, application/grpc-web+proto", "+proto,application/grpc-web", "-text", "-text+proto", "-TEXT"}
+
+// what may follow the media type: nothing, well-formed parameters, and every malformed shape mime.ParseMediaType rejects
+var paramTails = []string{
+	"", ";", "; ", " ;", "\t;\t", ";;", "; ;", ";;;;", " ; ; ",
+	"; charset=utf-8", ";charset=utf-8", "; charset=\"utf-8\"", "; CHARSET=UTF-8", ";\tcharset=utf-8", "; charset=utf-8;", "; a=1; b=2",
+	"; charset", ";charset", "; charset;", "; charset; x=1", "; =utf-8", "; =", "; charset=", "; charset= utf-8", "; charset =utf-8",
+	";; x=1", "; ; x=1", "; x=1;; y=2",
+	"; version=a/b", "; v=a@b", "; v=(1)", "; v=[1]", "; v=a b", "; v=a,b", "; url=http://x/y?z",
+	"; x=1; x=2", "; x=1; X=2", "; x=1; x=1",
+	"; q=\"abc", "; q=\"", "; q=\"a\\", "; q=\"a\\\"b\"", "; q=\"a;b\"", "; q=\"a\"b", "; q=\"\"", "; q=\"a\" ; r=\"b",
+	"; x=\xc3\xa9", "; \xc3\xa9=1", "; x=\xff\xfe", " \xe2\x80\x8b; x=1",
+	", application/grpc-web+proto", ",application/json", ", */*",
+	"; boundary=" + strings.Repeat("a", 300), "; " + strings.Repeat("k=v; ", 80), ";" + strings.Repeat(";", 200), "; x=\"" + strings.Repeat("q", 400),
+	" ", "  ", "\t", " x", " charset=utf-8", "/x", "/", ":", "=", "\"", "'", "*", "x", "2", ".", "_", "-", "\xff", "\xc3\xbc",
+}
+
+// the symmetric negative family: the string occurs, but not as the beginning of the media type
+var notGrpcWeb = []string{
+	"application/grpc", "application/grpc+proto", "application/grpc; web", "application/grpc ;web", "application/grpc -web", "application/grpc- web", "application/grpc_web",
+	"application/grpc-we", "application/grpc-wex", "application/grpc-wéb", "application/grpcweb", "application/ grpc-web", "application /grpc-web", "application//grpc-web",
+	"xapplication/grpc-web", "x-application/grpc-web", "x/application/grpc-web", "/application/grpc-web", ";application/grpc-web", "; application/grpc-web", ",application/grpc-web",
+	"\"application/grpc-web\"", "'application/grpc-web'", "<application/grpc-web>",
+	"text/plain; x=application/grpc-web", "text/plain; application/grpc-web", "application/json; type=\"application/grpc-web\"", "application/json, application/grpc-web",
+	"multipart/related; type=application/grpc-web+proto", "application/x-grpc-web", "application/vnd.grpc-web", "applicationgrpc-web", "grpc-web", "application", "application/",
+	"application/json", "application/json; charset=utf-8", "text/plain", "*/*", "",
+}
+
+func genContentType(r *rand.Rand) string {
+	switch r.Intn(10) {
+	case 0, 1:
+		return common.Pick(r, ctVals)
+	case 2, 3:
+		v := common.Pick(r, notGrpcWeb)
+		if r.Intn(3) == 0 {
+			v += common.Pick(r, paramTails)
+		}
+		return v
+	default:
+		return common.Pick(r, grpcWebTypes) + common.Pick(r, grpcWebSuffixes) + common.Pick(r, paramTails)
+	}
 }
 
 func genLines(r *rand.Rand) [][2]string {
@@ -187,7 +238,22 @@ func genLines(r *rand.Rand) [][2]string {
 	add("Connection", connVals, 20, 20)
 	add("Upgrade", upgVals, 25, 15)
 	add("Sec-WebSocket-Protocol", protoVals, 45, 25)
-	add("Content-Type", ctVals, 35, 5)
+	if r.Intn(100) >= 30 {
+		n := 1
+		if r.Intn(20) == 0 {
+			n = 2
+		}
+		for i := 0; i < n; i++ {
+			v := genContentType(r)
+			switch r.Intn(12) {
+			case 0:
+				v = " " + v + "\t"
+			case 1:
+				v = strings.ToUpper(v)
+			}
+			lines = append(lines, [2]string{common.Pick(r, names["Content-Type"]), v})
+		}
+	}
 	if r.Intn(10) != 0 {
 		lines = append(lines, [2]string{"Sec-WebSocket-Version", "13"}, [2]string{"Sec-WebSocket-Key", "dGhlIHNhbXBsZSBub25jZQ=="})
 	}
@@ -267,6 +333,28 @@ func (Area) Gen(r *rand.Rand, tier string, emit func(string)) {
 		} else {
 			disp(method, q, genLines(r))
 		}
+	}
+	// plain POSTs whose only interesting header is the Content-Type: the realistic gRPC-Web request shape.
+	// First the full grid over one spelling of the type (every suffix x every tail would be 20 x 80: take all tails
+	// for the bare type and for +proto, and all suffixes with three tails), then random compositions.
+	for _, tail := range paramTails {
+		disp("POST", "", [][2]string{{"Content-Type", "application/grpc-web" + tail}})
+		disp("POST", "", [][2]string{{"Content-Type", "application/grpc-web+proto" + tail}})
+	}
+	for _, suf := range grpcWebSuffixes {
+		for _, tail := range []string{"", "; charset=utf-8", "; charset"} {
+			disp("POST", "", [][2]string{{"Content-Type", "Application/gRPC-Web" + suf + tail}})
+		}
+	}
+	for _, v := range notGrpcWeb {
+		disp("POST", "", [][2]string{{"Content-Type", v}})
+	}
+	nCT := 600
+	if tier == "thorough" {
+		nCT = 20000
+	}
+	for i := 0; i < nCT; i++ {
+		disp("POST", "", [][2]string{{common.Pick(r, names["Content-Type"]), genContentType(r)}})
 	}
 	mdq := func(param, q string) { emit("mdq " + common.HexS(param) + " " + common.HexS(q)) }
 	mdq("", "")
